@@ -234,6 +234,9 @@ def attribute(m, mod='l1'):
     elif m['kind'] == 'invariant':
         tags |= set(m.get('tags') or [])
         why = 'invariant %s fails on an observed state' % m.get('name')
+    if m.get('after_import') and not m.get('diverged'):
+        tags.add('C16')          # the same edge conforms on the original chain (it is replayed there too) and differs on the re-imported one
+        why += ' (on the chain re-imported from genesis one step earlier)'
     if et == 'Query' and m['kind'] in ('result', 'resp', 'state') and any(isinstance(x, dict) and (x.get('e') or x).get('type') == 'ExportImport' for x in (m.get('path') or [])):
         tags.add('C16')          # C16: the re-imported chain answers every later query as the original would
         why += ' (after a genesis round trip)'
@@ -492,6 +495,20 @@ def deep_diff(a, b, path=''):
     return [] if a == b else [path or '<root>']
 
 
+def keep_per_class(mism, per=4, cap=4000):
+    """Same rule as the Go walker: keep a few mismatches of every class so that a flood of one class cannot hide another."""
+    seen, out = {}, []
+    for m in mism:
+        tops = sorted({'.'.join(f.split('.')[:2]) for f in (m.get('fields') or [])})
+        ev = m.get('event') or {}
+        ev = ev.get('e', ev) if isinstance(ev.get('e'), dict) else ev
+        c = (m.get('kind'), m.get('name'), ev.get('type'), m.get('spec_ok'), m.get('impl_ok'), tuple(sorted(m.get('failed_guards') or [])), tuple(tops))
+        if seen.get(c, 0) < per and len(out) < cap:
+            seen[c] = seen.get(c, 0) + 1
+            out.append(m)
+    return out
+
+
 def run_trace(name, tier, seed, work):
     """E3: seeded random histories on the real keepers (NDJSON with event, result, response, full projected state per
     line) validated by TLC: each line is a one-step refinement check from the observed pre-state; invariants are
@@ -547,7 +564,7 @@ def run_trace(name, tier, seed, work):
         name, tr['runs'][tier], tr['length'][tier], n, ok_events, len(mism), time.time() - t0))
     sample = dict(lines[1]) if len(lines) > 1 else {}
     sample.pop('state', None)
-    walk = dict(states=n, edges=n, edges_ok=ok_events, replayed=n, unreached_states=0, skipped_subtrees=0, by_type=by_type, mismatches=mism[:400], n_mismatch=len(mism),
+    walk = dict(states=n, edges=n, edges_ok=ok_events, replayed=n, unreached_states=0, skipped_subtrees=0, by_type=by_type, mismatches=keep_per_class(mism), n_mismatch=len(mism),
                 samples=[sample], findings={}, finding_samples={})
     tlc = dict(res)
     tlc['distinct'] = 0
